@@ -11,6 +11,21 @@ fn main() {
     let mut per: std::collections::BTreeMap<&str, usize> = Default::default();
     for c in &cases { *per.entry(c.space).or_default() += 1; }
     eprintln!("{} cases {:?}", cases.len(), per);
+    if args.get(2).map(|s| s == "@").unwrap_or(false) {
+        // gendump <which> @ <first> <len>  — or  @ find <substr> <batch> : the batch containing the case
+        if args.get(3).map(|s| s == "find").unwrap_or(false) {
+            let idx = cases.iter().position(|c| c.desc.contains(args[4].as_str())).expect("no such case");
+            let b: usize = args[5].parse().unwrap();
+            let first = idx / b * b;
+            eprintln!("case index {idx}, batch {first}..{}", first + b);
+            println!("{}", vh_comp::gen::render_package(&cases[first..(first + b).min(cases.len())]));
+        } else {
+            let first: usize = args[3].parse().unwrap();
+            let len: usize = args[4].parse().unwrap();
+            println!("{}", vh_comp::gen::render_package(&cases[first..(first + len).min(cases.len())]));
+        }
+        return;
+    }
     if let Some(f) = args.get(2) {
         let sel: Vec<_> = cases.iter().filter(|c| c.desc.contains(f.as_str())).take(args.get(3).and_then(|s| s.parse().ok()).unwrap_or(5)).cloned().collect();
         println!("{}", vh_comp::gen::render_package(&sel));
